@@ -491,6 +491,7 @@ type AtCall struct {
 }
 
 type Clause struct {
+	Binding bool // `binds`: a precondition over the (value) receiver only, checked where the method is bound to its receiver
 	Label string
 	Expr  *SExpr
 	Text  string
@@ -596,7 +597,7 @@ func (cs *ContractSet) LoadContractText(text, path, pkgName string) error {
 		}
 		switch first {
 		case "spec", "axiom", "lemma", "func", "functype", "fieldfn", "assume-contract", "requires", "assumes", "ensures", "invariant", "ghost", "decreases",
-			"modifies", "keeps", "traced", "nopanic", "pure", "inline", "loop", "inlined-loop", "property", "fresh", "copyof", "callbacks-modify-nothing", "witness", "at-call", "expand":
+			"modifies", "keeps", "traced", "nopanic", "pure", "inline", "loop", "inlined-loop", "property", "fresh", "copyof", "callbacks-modify-nothing", "witness", "at-call", "expand", "binds":
 			items = append(items, t)
 			lineNo = append(lineNo, i+1)
 		default:
@@ -744,12 +745,15 @@ func (cs *ContractSet) LoadContractText(text, path, pkgName string) error {
 			}
 			cur.Lines++
 			switch kw {
-			case "requires", "ensures", "invariant", "assumes":
+			case "requires", "ensures", "invariant", "assumes", "binds":
 				c, err := parseClause(rest)
 				if err != nil {
 					return fail(i, err)
 				}
 				switch kw {
+				case "binds":
+					c.Binding = true
+					cur.Requires = append(cur.Requires, c)
 				case "assumes":
 					cur.Assumes = append(cur.Assumes, c)
 				case "requires":
